@@ -1,5 +1,6 @@
 import Tahoe.Immutable.FetchLemmasC03
 import Tahoe.Immutable.SegLemmas
+import Tahoe.Immutable.SysLemmas
 /-! C03 — immutable availability with k good shares (property theorems over the SegmentFetcher
 event system `Tahoe.Fetch`; helper lemmas in `Tahoe/Immutable/FetchLemmas*.lean`).
 
@@ -17,7 +18,7 @@ interleaving.
 | ≥ k shares with distinct share numbers intact on answering servers ⇒ the segment fetch succeeds | `enough_good_shares_succeed` (fetcher event system, all fair histories) |
 | … whatever happens to the other shares / servers: missing, corrupted, erroring, disconnecting mid-read | same theorem: `Fair` lets every non-good share answer CORRUPT / DEAD / BADSEGNUM at any time, any placement (several shares per server), any interleaving; *that share.py / finder.py turn those faults into exactly these events* is the assumption `Fair` — monitor only (end-to-end fault schedules) |
 | … or answering late | `Fair` allows OVERDUE before the terminal event of any share (theorem); late DYHB answers / finder overdue timers: monitor only (ShareFinder not modelled) |
-| the read (not just one segment fetch) succeeds, whatever the reader's segment-size guess | read layer: `genuine_segment_is_accepted` (a genuine answer is accepted and makes progress), `C46.bad_segnum_retry` (a wrong guess costs one retry with the real size), `C46.read_writes_exact_range` (success ⇒ exactly the requested range was written); node layer: `C46.no_stuck_state`.  The three layers are composed by hand (a request's Deferred fires ⇔ the node retired it), not in one Lean system — `read_succeeds_partial` below says what is missing |
+| the read (not just one segment fetch) succeeds, whatever the reader's segment-size guess | read layer: `genuine_segment_is_accepted` (a genuine answer is accepted and makes progress), `C46.bad_segnum_retry` (a wrong guess costs one retry with the real size), `C46.read_writes_exact_range` (success ⇒ exactly the requested range was written); node layer: `C46.no_stuck_state`.  composed system: `composed_read_delivers_exact_range`, `C46.every_read_terminates`; success (not just termination) inside the composed system: `read_succeeds_partial` below |
 | < k distinct good shares reachable ⇒ the read fails with a not-enough-shares error | `too_few_fail` (fetcher: `fetch_failed(NotEnoughShares | NoShares)`); node layer retires the requests with that Failure (`C46.no_stuck_state` + correspondence); Segmentation passes it to the read's errback (`C46.bad_segnum_retry`, second part) |
 | … instead of returning data | `too_few_fail`, second conjunct (no prefix of the run calls `process_blocks`); that delivered bytes are right is C02 |
 | quantifier: all placements on up to N+3 servers, all subsets of failed shares, failures before/during/after block fetches, all response orders and overdue firings | theorems quantify over all event lists satisfying `Fair` (no bound); server-level faults reach the model only as share events — monitor only for the mapping |
@@ -30,11 +31,14 @@ b6b8db9 a wrong guess no longer kills good shares — both found by the monitors
 foolscap's eventual-send queue runs every queued turn; a server that neither answers nor disconnects
 is outside the statement.
 
-`read_succeeds_partial` (not stated as one theorem): "for every fair history of the whole stack
-(finder + shares + fetchers + node + Segmentation) with ≥ k good shares the read's Deferred fires with
-the requested bytes".  Proved: each layer's half of the contract (theorems above).  Missing: a single
-Lean transition system that routes `get_segment` / `_deliver` between `Seg` and `Node` and one fetcher
-environment per segment, with the induction over it.
+`read_succeeds_partial` (still not one theorem): "for every fair history of the whole stack with ≥ k good
+shares every read's Deferred fires with success".  Proved now: termination of every read of the composed
+system (`C46.every_read_terminates`), exactness of what a successful read delivers
+(`composed_read_delivers_exact_range`, `composed_step_writes_contiguous`), success of each single fetcher
+under `Fair` (`enough_good_shares_succeed`).  Missing: threading the C03 invariant `Inv good` through the
+fetchers that `Node` creates per segment (one `Fair` environment per fetcher generation, with the node's
+`known`/`dead` share lists as the announced set), which would turn "terminates" into "terminates with
+success" inside `Sys`.
 -/
 namespace Tahoe.C03
 open Tahoe.Fetch
@@ -147,6 +151,31 @@ theorem genuine_segment_is_accepted (s : Seg) (fs : Nat) (k pause : Bool) (hss :
 
 example : (segStep { segsize := 64, guess := 1000, offset := 70, size := 100, alive := true, active := some 1 }
     true (.segment 64 64 false)).offset = 128 := by decide
+
+
+/-- **C03, composed system: a read delivers exactly its range.**  In every history of the composed
+system (reads routed through the node, any segment-size guess, any answers) every read keeps
+`offset + size = off0 + size0`, and a read whose Deferred fired with success has consumed the whole
+range `[off0, off0 + size0)`. -/
+theorem composed_read_delivers_exact_range (k numSegs : Nat) (badSegs : List Nat) (filesize segsize guess : Nat)
+    (es : List SysEv) :
+    ∀ r ∈ (sysRun (sysInit k numSegs badSegs filesize segsize guess) es).reads,
+      r.seg.offset + r.seg.size = r.off0 + r.size0 ∧
+      (r.seg.result = some none → r.seg.offset = r.off0 + r.size0) := by
+  intro r hr
+  have h := rangeinv_run es (sysInit k numSegs badSegs filesize segsize guess) (by simp [sysInit]) r hr
+  refine ⟨h.1, fun hd => ?_⟩
+  have := h.2 hd
+  have := h.1
+  omega
+
+/-- … and what it hands to its consumer in one step is contiguous, starting exactly at the offset
+reached so far and ending at the new offset (so by the theorem above the writes of a successful
+read are exactly `[off0, off0 + size0)`, in order, without gap or overlap). -/
+theorem composed_step_writes_contiguous (s : Seg) (k : Bool) (e : SEv) (hd : s.result = some none → s.size = 0) :
+    contigEnd s.offset (writesOf (segStep { s with out := [] } k e).out) =
+      some (segStep { s with out := [] } k e).offset :=
+  (rangeinv_seg s k e hd).2.2
 
 /-! ### concrete instances (the hypotheses are satisfiable, the conclusions are the expected ones) -/
 
